@@ -276,6 +276,11 @@ Definition foldfilter_stream (o : wopts) (child : list Z -> list Z) (cr_in cr_ou
 Definition line_child (g : list Z -> list Z) (child_in : list Z) : list Z :=
   unrecords 10 (map g (records 10 false child_in)).
 
+(* a child with memory: one answer line per line read, the i-th answer may depend on everything read
+   (numbering, context, ...): given by its answer function on the list of all lines *)
+Definition answers_child (A : list (list Z) -> list (list Z)) (child_in : list Z) : list Z :=
+  unrecords 10 (A (records 10 false child_in)).
+
 (* -w <num>: a non-empty string of decimal digits below 2^64 (what a size_t holds);
    anything else is a usage error.  None = usage error (exit status 1). *)
 Fixpoint digits_value (acc : Z) (s : list Z) : option Z :=
